@@ -14,8 +14,11 @@ CONSTANTS
   Ep = 2
   MaxRefresh = 2
   MaxChanges = 2
+  MaxHeld = 1
+  SignerMayFail = TRUE
+  MoveFan = 1
   ScenLen = 13
   SetupFan = 24
   SetupLen = 5
-INVARIANTS Emit TypeOK AllFutureSubscribed AggregatorRuleExact InfoInForceComplete EveryAggregatorCommitteeScheduled
+INVARIANTS Emit TypeOK AllFutureSubscribed AggregatorRuleExact SubscriptionHistoryIndependent InfoInForceComplete EveryAggregatorCommitteeScheduled
 CHECK_DEADLOCK FALSE
